@@ -207,3 +207,169 @@ theorem finish_eq (c : Ctx) (r : St) (n : Nat) (hg : r.Good c n) (hn : 1 < n) (h
     omega
 
 end Fancy
+
+namespace Fancy
+
+/-! ## Core programs allocate no auxiliary slots -/
+
+mutual
+theorem visit_core_nsv (br : Nat → Bool) : ∀ (e : Expr) (pc nsv gix : Nat) (code : Code) (nsv' : Nat),
+    isCore e = true → visit br e true pc nsv gix = .ok (code, nsv') → nsv' = nsv
+  | .empty, pc, nsv, gix, code, nsv', _, hv | .any true, pc, nsv, gix, code, nsv', _, hv
+  | .any false, pc, nsv, gix, code, nsv', _, hv | .assertion _, pc, nsv, gix, code, nsv', _, hv
+  | .backref _, pc, nsv, gix, code, nsv', _, hv | .keepOut, pc, nsv, gix, code, nsv', _, hv
+  | .contPrev, pc, nsv, gix, code, nsv', _, hv => by
+    rw [visit] at hv
+    simp at hv
+    exact hv.2.symm
+  | .literal v ci, pc, nsv, gix, code, nsv', hcore, hv => by
+    simp only [isCore, Bool.and_eq_true, Bool.not_eq_true'] at hcore
+    have hci : ci = false := hcore.1
+    subst hci
+    rw [visit] at hv
+    simp at hv
+    exact hv.2.symm
+  | .group g e, pc, nsv, gix, code, nsv', hcore, hv => by
+    rw [visit] at hv
+    simp only [Bool.not_true, Bool.false_and, Bool.false_eq_true, ↓reduceIte] at hv
+    cases hb : visit br e true (pc + 1) nsv (gix + 1) with
+    | error err => simp [hb] at hv
+    | ok p =>
+      obtain ⟨code1, nsv1⟩ := p
+      simp only [hb, Except.ok.injEq, Prod.mk.injEq] at hv
+      simp only [isCore] at hcore
+      have := visit_core_nsv br e (pc + 1) nsv (gix + 1) code1 nsv1 hcore hb
+      omega
+  | .concat es, pc, nsv, gix, code, nsv', hcore, hv => by
+    rw [visit] at hv
+    simp only [Bool.not_true, Bool.false_and, Bool.false_eq_true, ↓reduceIte] at hv
+    simp only [isCore] at hcore
+    generalize concatSplit br es true = sp at hv
+    cases hb : visitMiddle br es sp.1 (sp.2 - sp.1)
+        (pc + (compileDelegates (es.take sp.1) gix).length) nsv (gix + groupCountList (es.take sp.1)) with
+    | error err => simp [hb] at hv
+    | ok p =>
+      obtain ⟨mid, nsv1⟩ := p
+      simp only [hb, Except.ok.injEq, Prod.mk.injEq] at hv
+      have := visitMiddle_core_nsv br es _ _ _ nsv _ mid nsv1 hcore hb
+      omega
+  | .alt es, pc, nsv, gix, code, nsv', hcore, hv => by
+    rw [visit] at hv
+    simp only [Bool.not_true, Bool.false_and, Bool.false_eq_true, ↓reduceIte] at hv
+    simp only [isCore, Bool.and_eq_true] at hcore
+    cases hb : visitAlt br es true pc nsv gix with
+    | error err => simp [hb] at hv
+    | ok p =>
+      obtain ⟨f, endPc, nsv1⟩ := p
+      simp only [hb, Except.ok.injEq, Prod.mk.injEq] at hv
+      have := visitAlt_core_nsv br es pc nsv gix f endPc nsv1 hcore.2 hb
+      omega
+  | .repeat e lo hi greedy, pc, nsv, gix, code, nsv', hcore, hv => by
+    simp only [isCore, Bool.and_eq_true, Bool.or_eq_true, beq_iff_eq, decide_eq_true_eq] at hcore
+    obtain ⟨hce, hshape⟩ := hcore
+    rw [visit] at hv
+    simp only [Bool.not_true, Bool.false_and, Bool.false_eq_true, ↓reduceIte] at hv
+    rcases hshape with ⟨rfl, rfl⟩ | ⟨⟨rfl, hlo⟩, hm⟩
+    · simp only [beq_self_eq_true, Bool.and_self, ↓reduceIte] at hv
+      cases hb : visit br e true (pc + 1) nsv gix with
+      | error err => simp [hb] at hv
+      | ok p =>
+        obtain ⟨code1, nsv1⟩ := p
+        simp only [hb, Except.ok.injEq, Prod.mk.injEq] at hv
+        have := visit_core_nsv br e (pc + 1) nsv gix code1 nsv1 hce hb
+        omega
+    · have hm0 : ¬ (minSize e = 0) := by omega
+      rcases hlo with rfl | rfl
+      · simp only [beq_self_eq_true, reduceCtorEq, Bool.and_false, Bool.false_eq_true, ↓reduceIte,
+          Bool.true_or, Bool.true_and, beq_iff_eq, hm0, Bool.and_self] at hv
+        cases hb : visit br e true (pc + 1) nsv gix with
+        | error err => simp [hb] at hv
+        | ok p =>
+          obtain ⟨code1, nsv1⟩ := p
+          simp only [hb, Except.ok.injEq, Prod.mk.injEq] at hv
+          have := visit_core_nsv br e (pc + 1) nsv gix code1 nsv1 hce hb
+          omega
+      · simp only [Nat.succ_ne_self, reduceCtorEq, Bool.and_false, Bool.false_eq_true, ↓reduceIte,
+          Bool.true_or, Bool.true_and, beq_iff_eq, hm0, Bool.and_self, beq_self_eq_true, Nat.add_one_ne_zero,
+          Bool.false_and] at hv
+        cases hb : visit br e true pc nsv gix with
+        | error err => simp [hb] at hv
+        | ok p =>
+          obtain ⟨code1, nsv1⟩ := p
+          simp only [hb, Except.ok.injEq, Prod.mk.injEq] at hv
+          have := visit_core_nsv br e pc nsv gix code1 nsv1 hce hb
+          simp at hv
+          omega
+  | .look _ _, _, _, _, _, _, h, _ | .delegate _ _ _, _, _, _, _, _, h, _
+  | .atomic _, _, _, _, _, _, h, _ | .backrefExists _, _, _, _, _, _, h, _
+  | .cond _ _ _, _, _, _, _, _, h, _ | .subroutine _, _, _, _, _, _, h, _ => by
+    simp [isCore] at h
+termination_by e => sizeOf e
+decreasing_by all_goals (simp_wf; try omega)
+theorem visitMiddle_core_nsv (br : Nat → Bool) : ∀ (es : List Expr) (skip take pc nsv gix : Nat) (code : Code) (nsv' : Nat),
+    isCoreAll es = true → visitMiddle br es skip take pc nsv gix = .ok (code, nsv') → nsv' = nsv
+  | [], skip, take, pc, nsv, gix, code, nsv', _, hv => by
+    simp only [visitMiddle, Except.ok.injEq, Prod.mk.injEq] at hv
+    exact hv.2.symm
+  | e :: es, skip + 1, take, pc, nsv, gix, code, nsv', hcore, hv => by
+    simp only [visitMiddle] at hv
+    simp only [isCoreAll, Bool.and_eq_true] at hcore
+    exact visitMiddle_core_nsv br es skip take pc nsv gix code nsv' hcore.2 hv
+  | e :: es, 0, 0, pc, nsv, gix, code, nsv', _, hv => by
+    simp only [visitMiddle, Except.ok.injEq, Prod.mk.injEq] at hv
+    exact hv.2.symm
+  | e :: es, 0, take + 1, pc, nsv, gix, code, nsv', hcore, hv => by
+    simp only [visitMiddle] at hv
+    simp only [isCoreAll, Bool.and_eq_true] at hcore
+    cases hb : visit br e true pc nsv gix with
+    | error err => simp [hb] at hv
+    | ok p =>
+      obtain ⟨c1, nsv1⟩ := p
+      simp only [hb] at hv
+      cases hb2 : visitMiddle br es 0 take (pc + c1.length) nsv1 (gix + groupCount e) with
+      | error err => simp [hb2] at hv
+      | ok p2 =>
+        obtain ⟨c2, nsv2⟩ := p2
+        simp only [hb2, Except.ok.injEq, Prod.mk.injEq] at hv
+        have h1 := visit_core_nsv br e pc nsv gix c1 nsv1 hcore.1 hb
+        have h2 := visitMiddle_core_nsv br es 0 take (pc + c1.length) nsv1 _ c2 nsv2 hcore.2 hb2
+        omega
+termination_by es => sizeOf es
+decreasing_by all_goals (simp_wf; try omega)
+theorem visitAlt_core_nsv (br : Nat → Bool) : ∀ (es : List Expr) (pc nsv gix : Nat) (f : Nat → Code) (endPc nsv' : Nat),
+    isCoreAll es = true → visitAlt br es true pc nsv gix = .ok (f, endPc, nsv') → nsv' = nsv
+  | [], pc, nsv, gix, f, endPc, nsv', _, hv => by
+    simp only [visitAlt, Except.ok.injEq, Prod.mk.injEq] at hv
+    exact hv.2.2.symm
+  | [e], pc, nsv, gix, f, endPc, nsv', hcore, hv => by
+    simp only [visitAlt] at hv
+    simp only [isCoreAll, Bool.and_eq_true] at hcore
+    cases hb : visit br e true pc nsv gix with
+    | error err => simp [hb] at hv
+    | ok p =>
+      obtain ⟨c1, nsv1⟩ := p
+      simp only [hb, Except.ok.injEq, Prod.mk.injEq] at hv
+      have := visit_core_nsv br e pc nsv gix c1 nsv1 hcore.1 hb
+      omega
+  | e :: e2 :: es, pc, nsv, gix, f, endPc, nsv', hcore, hv => by
+    simp only [visitAlt] at hv
+    simp only [isCoreAll, Bool.and_eq_true] at hcore
+    cases hb : visit br e true (pc + 1) nsv gix with
+    | error err => simp [hb] at hv
+    | ok p =>
+      obtain ⟨c1, nsv1⟩ := p
+      simp only [hb] at hv
+      cases hb2 : visitAlt br (e2 :: es) true (pc + 1 + c1.length + 1) nsv1 (gix + groupCount e) with
+      | error err => simp [hb2] at hv
+      | ok p2 =>
+        obtain ⟨f2, endPc2, nsv2⟩ := p2
+        simp only [hb2, Except.ok.injEq, Prod.mk.injEq] at hv
+        have h1 := visit_core_nsv br e (pc + 1) nsv gix c1 nsv1 hcore.1 hb
+        have h2 := visitAlt_core_nsv br (e2 :: es) _ nsv1 _ f2 endPc2 nsv2
+          (by simp [isCoreAll, hcore.2.1, hcore.2.2]) hb2
+        omega
+termination_by es => sizeOf es
+decreasing_by all_goals (simp_wf; try omega)
+end
+
+end Fancy
